@@ -25,14 +25,24 @@ def ts? (s : String) : Option (Option Timestamp) :=
 
 def bit? (c : Char) : Option Bool := if c = '1' then some true else if c = '0' then some false else none
 
+/-- `size:ts:roothex:sighex` -/
+def sth? (l : List String) : Option Sth :=
+  match l with
+  | [size, ts, root, sg] =>
+    match parseNat? size, parseNat? ts, fromHex root, fromHex sg with
+    | some n, some t, some r, some g => some ⟨n, t, r, g⟩
+    | _, _, _, _ => none
+  | _ => none
+
+/-- `-` or `vsg:size:ts:roothex:sighex` (three oracle bits, then the frozen STH) -/
 def frozen? (s : String) : Option (Option FrozenOracle) :=
   if s = "-" then some none else
   match s.splitOn ":" with
-  | [bits, size] =>
-    match bits.toList, parseNat? size with
-    | [v, sh, g], some n =>
+  | bits :: rest =>
+    match bits.toList, sth? rest with
+    | [v, sh, g], some st =>
       match bit? v, bit? sh, bit? g with
-      | some v, some sh, some g => some (some ⟨v, sh, g, n⟩)
+      | some v, some sh, some g => some (some ⟨v, sh, g, st⟩)
       | _, _, _ => none
     | _, _ => none
   | _ => none
@@ -106,17 +116,23 @@ def showKeys (ks : List Bytes) : String :=
 
 def isTag (s : String) : Bool := s.startsWith "#"
 
-def storage? (s : String) : Option (Int → Option Nat) :=
+/-- the STH the scripted mirror storage returns for a size -/
+def storSth (n : Nat) : Sth := ⟨n, 0, List.replicate 32 0, [4, 3, 0, 3, 1, 2, 3]⟩
+
+def storage? (s : String) : Option (Int → Option Sth) :=
   if s = "e" then some fun _ => none
   else if s.startsWith "h" then
     match parseNat? (s.drop 1).toString with
-    | some k => some fun m => if m < 0 then none else some (if m.toNat < k then m.toNat else k)
+    | some k => some fun m => if m < 0 then none else some (storSth (if m.toNat < k then m.toNat else k))
     | none => none
   else if s.startsWith "o" then
     match parseNat? (s.drop 1).toString with
-    | some k => some fun _ => some k
+    | some k => some fun _ => some (storSth k)
     | none => none
   else none
+
+def showSth (s : Sth) (sigShown : Bool) : String :=
+  s!"200 {s.size} {s.ts} {hexOrDash s.root} " ++ (if sigShown then hexOrDash s.sig else "*")
 
 def handle (line : String) : String :=
   if (tokens line).contains "#skip" then "skip" else
@@ -156,25 +172,25 @@ where go : List String → String
     | _ => "bad-op"
   | "su" :: rest =>
     match cfg? rest with
-    | some (c, [";", n, ro, sg, co, oi]) =>
-      match parseNat? n, parseBool? ro, parseBool? sg, parseBool? co, parseBool? oi with
-      | some n, some ro, some sg, some co, some oi =>
-        match setUp c ⟨n, ro, sg, co, oi⟩ with
+    | some (c, [";", n, ro, sg, co, oi, db, ca]) =>
+      match parseNat? n, parseBool? ro, parseBool? sg, parseBool? co, parseBool? oi, parseBool? db, parseBool? ca with
+      | some n, some ro, some sg, some co, some oi, some db, some ca =>
+        match setUp c ⟨n, ro, sg, co, oi, db, ca⟩ with
         | none => "err"
-        | some inst => s!"ok {inst.getter} {showKeys inst.keys}"
-      | _, _, _, _, _ => "bad-op"
+        | some inst => s!"ok {inst.getter} {boolStr inst.external} {showKeys inst.keys}"
+      | _, _, _, _, _, _, _ => "bad-op"
     | _ => "bad-op"
   | ["gs", fz, mir, backend, stor, sign] =>
-    let fz? : Option (Option Nat) := if fz = "-" then some none else (parseNat? fz).map some
-    let be? : Option (Option Nat) := if backend = "e" then some none else (parseNat? backend).map some
+    let fz? : Option (Option Sth) := if fz = "-" then some none else (sth? (fz.splitOn ":")).map some
+    let be? : Option (Option Sth) := if backend = "e" then some none else (parseNat? backend).map fun n => some ⟨n, 1, List.replicate 32 0, []⟩
     match fz?, parseBool? mir, be?, storage? stor, parseBool? sign with
     | some fz, some mir, some be, some st, some sign =>
-      let inst : Instance := { paths := [], keys := [], getter := Gen.sthGetterSelect fz.isSome mir, frozenSize := fz.getD 0 }
+      let inst : Instance := { paths := [], keys := [], getter := Gen.sthGetterSelect fz.isSome mir, frozen := fz.getD { size := 0 } }
       let asked := match inst.getter, be with
-        | 1, some n => s!" asked={Gen.mirrorMaxTreeSize n}"
+        | 1, some b => s!" asked={Gen.mirrorMaxTreeSize b.size}"
         | _, _ => ""
-      match serveSth inst be st sign with
-      | some n => s!"200 {n}{asked}"
+      match serveSth inst be st (if sign then some [] else none) with
+      | some s => showSth s (inst.getter != 2) ++ asked
       | none => s!"err{asked}"
     | _, _, _, _, _ => "bad-op"
   | _ => "bad-op"
